@@ -63,15 +63,42 @@ func Main(args []string) int {
 			continue
 		}
 		jobs = append(jobs, j)
-		info[key] = servlab.C15Pkg{Key: key, Origin: it.ID, PerOp: r.N(4, 8), Muts: r.N(100, 400)}
+		info[key] = servlab.C15Pkg{Key: key, Origin: it.ID, PerOp: r.N(4, 8), Muts: r.N(100, 400), Probes: probesOf(j.Spec)}
 	}
-	batch := 12
-	rejected := map[string]string{}
-	for b := 0; b*batch < len(jobs); b++ {
-		lo, hi := b*batch, (b+1)*batch
-		if hi > len(jobs) {
-			hi = len(jobs)
+	nCorpus := len(jobs)
+	// crafted documents at the edge of parameter admission (a document the generator refuses is tallied)
+	explodes := []string{"", "false"}
+	if r.Thorough() {
+		explodes = []string{"", "false", "true"}
+	}
+	edge := edgeDocs(explodes)
+	var edgeNames []string
+	for n := range edge {
+		edgeNames = append(edgeNames, n)
+	}
+	sort.Strings(edgeNames)
+	for i, n := range edgeNames {
+		it := genlab.Item{ID: n, Text: string(edge[n]), Name: "spec", Features: []string{"paths/client", "paths/server"}, Convenient: "off"}
+		key := fmt.Sprintf("e%04d", i)
+		j, err := e3.JobFromItem(key, it)
+		if err != nil {
+			continue
 		}
+		jobs = append(jobs, j)
+		info[key] = servlab.C15Pkg{Key: key, Origin: it.ID, PerOp: r.N(2, 4), Muts: r.N(20, 60), Probes: probesOf(j.Spec)}
+	}
+	// corpus documents in batches of 12 per driver binary; the small crafted documents (most of them refused before
+	// anything is compiled) in batches of 60
+	var cuts [][2]int
+	for lo := 0; lo < nCorpus; lo += 12 {
+		cuts = append(cuts, [2]int{lo, min(lo+12, nCorpus)})
+	}
+	for lo := nCorpus; lo < len(jobs); lo += 60 {
+		cuts = append(cuts, [2]int{lo, min(lo+60, len(jobs))})
+	}
+	rejected := map[string]string{}
+	for b, cut := range cuts {
+		lo, hi := cut[0], cut[1]
 		drv, err := e3.Build(mod, fmt.Sprintf("drv%02d", b), jobs[lo:hi], false)
 		if err != nil {
 			fmt.Println("ERROR", err)
